@@ -12,15 +12,19 @@ for p in sorted((root / 'seeded').glob('*/meta.json')):
     metas.append(m)
 det = sum(1 for m in metas if m['check']['detected'])
 hist = [m for m in metas if m.get('history')]
+strengthened = [m for m in hist if m['check']['detected']]
 out = []
-out.append('%d of %d are detected by the quick check; %d were missed at first and led to a strengthening of the '
-           'machinery (`r2_` = second round, whose sub-agents were told to avoid the obvious):\n' % (det, len(metas), len(hist)))
+out.append('%d of %d are detected by the quick check of their property; %d of those were missed at first and led to a '
+           'strengthening of the machinery; %d are not detected by it (explained in the table). `r2_`..`r4_` = later '
+           'rounds, whose sub-agents were told which kinds of change had already been tried:\n' % (
+               det, len(metas), len(strengthened), len(metas) - det))
 out.append('| change | first run | what was strengthened |')
 out.append('|---|---|---|')
 for m in hist:
     h = m['history']
     h = re.sub(r'^first run MISSED\s*', '', h).strip()
-    out.append('| %s `%s` | MISSED | %s |' % (m['property'], m['name'], h.replace('|', '/')))
+    out.append('| %s `%s` | %s | %s |' % (m['property'], m['name'], 'MISSED' if m['check']['detected'] else '**not detected**',
+                                       h.replace('|', '/')))
 out.append('')
 out.append('All changes and the clause / key that reports them:\n')
 out.append('| property | change | needs | reported as |')
